@@ -18,7 +18,8 @@ RULE = ("job = seed (+ optional forced (suite, version, EtM) grid cell) -> "
         "quiescence) + per-record plaintext limit computed from the two "
         "settings objects and the user recordSize. distinct = digest(scenario,"
         " script, effective choices); non-trivial = handshake completed and "
-        ">= 1 byte of application data was delivered in some direction")
+        ">= 1 byte of application data was delivered in some direction"
+        ' Op alphabet also has zero-length reads (the documented poll idiom) and re-sending the SAME caller-owned bytearray object; the data phase may run on a resumed connection.')
 LEVEL_TEXT = ("Seeded exploration: every negotiable (suite, version) cell "
               "and EtM on/off is visited in the quick tier, then random "
               "configurations and write/read histories under benign schedule "
